@@ -129,6 +129,9 @@ func Drive(chk *Check, o DriveOpts) int {
 	start := time.Now()
 	tier := o.Tier
 	runDir := filepath.Join(o.Root, ".build", "run", chk.ID+"-"+tier)
+	if o.Only >= 0 {
+		runDir += "-replay" // a replay keeps the logs and goroutine dumps of the run that found the violation
+	}
 	_ = os.RemoveAll(runDir)
 	if err := os.MkdirAll(runDir, 0o755); err != nil {
 		fmt.Println("INCONCLUSIVE property=" + chk.ID + " reason=cannot-create-run-dir")
